@@ -744,6 +744,67 @@ func execute(script []string, permLimit int) *caseResult {
 				res.nontrivial = true
 			}
 			emit(selLine(s.shards), "ok") // model back to the base list
+		case "#alias":
+			// The selector must own its shard map: build one from a slice, then reuse that slice the
+			// way a caller deriving the next configuration would (in-place removal, new weights,
+			// clearing) and ask the OLD selector again. Real code only, no model line.
+			hs, ok := parseHashes(w[1:])
+			if !ok || s.sel == nil {
+				continue
+			}
+			for k := uint64(0); k < 200 && len(hs) > 0; k++ { // a few hundred more, derived from the given ones
+				hs = append(hs, realSplitmix64(hs[0]+k*0x9e3779b97f4a7c15))
+			}
+			mutations := []struct {
+				name string
+				f    func(in []sharding.Shard)
+			}{
+				{"in-place removal of the first shard (append(s[:0], s[1:]...))", func(in []sharding.Shard) {
+					out := append(in[:0], in[1:]...)
+					in[len(out)] = sharding.Shard{}
+				}},
+				{"overwriting the weights", func(in []sharding.Shard) {
+					for i := range in {
+						in[i].Weight = uint32(1 + (i*7)%3)
+					}
+				}},
+				{"reversing the slice", func(in []sharding.Shard) {
+					for i, j := 0, len(in)-1; i < j; i, j = i+1, j-1 {
+						in[i], in[j] = in[j], in[i]
+					}
+				}},
+				{"clearing the slice", func(in []sharding.Shard) {
+					for i := range in {
+						in[i] = sharding.Shard{}
+					}
+				}},
+			}
+			for _, m := range mutations {
+				in := make([]sharding.Shard, 0, len(s.shards))
+				for _, sh := range s.shards {
+					in = append(in, sharding.Shard{Key: sh.key, Weight: sh.w})
+				}
+				var sel sharding.ShardSelector
+				var err error
+				if p := guard(func() { sel, err = sharding.NewRendezvousShardSelector(in) }); p != "" || err != nil || sel == nil {
+					break
+				}
+				before := make([]int, len(hs))
+				for i, h := range hs {
+					before[i], _ = getShard(sel, len(s.shards), h)
+				}
+				m.f(in)
+				for i, h := range hs {
+					after, p := getShard(sel, len(s.shards), h)
+					res.pairs++
+					if after != before[i] || p != "" {
+						res.fail("a selector's routing changed although its shard map did not (it depends on memory the caller still owns)",
+							fmt.Sprintf("%s, hash %d: index %d before, %d %s after %s of the slice the selector was built from", selLine(s.shards), h, before[i], after, p, m.name))
+						break
+					}
+				}
+			}
+			res.nontrivial = true
 		case "#remove":
 			hs, ok := parseHashes(w[1:])
 			if !ok || s.sel == nil || len(s.shards) < 2 {
@@ -1415,7 +1476,7 @@ func genSelectorCase(r *hx.Rand, run *hx.Run, maxN int, tie bool) []string {
 	for _, h := range hs {
 		script = append(script, fmt.Sprintf("getshard %d", h))
 	}
-	script = append(script, "#perm "+hashWords(hs))
+	script = append(script, "#perm "+hashWords(hs), "#alias "+hashWords(hs))
 	if n >= 2 {
 		script = append(script, "#remove "+hashWords(hs))
 	}
@@ -1497,7 +1558,7 @@ func genAlmostUniformCase(r *hx.Rand, run *hx.Run, maxN int) []string {
 	for _, h := range hs {
 		script = append(script, fmt.Sprintf("getshard %d", h))
 	}
-	script = append(script, "#perm "+hashWords(hs), "#remove "+hashWords(hs))
+	script = append(script, "#perm "+hashWords(hs), "#alias "+hashWords(hs), "#remove "+hashWords(hs))
 	// the other direction: the uniform rest, then the odd shard is added
 	script = append(script, selLine(rest))
 	for _, h := range hs {
@@ -1565,7 +1626,7 @@ func genCommonFactorCase(r *hx.Rand, run *hx.Run, maxN int) []string {
 	for _, h := range hs {
 		script = append(script, fmt.Sprintf("getshard %d", h))
 	}
-	script = append(script, "#perm "+hashWords(hs), "#remove "+hashWords(hs))
+	script = append(script, "#perm "+hashWords(hs), "#alias "+hashWords(hs), "#remove "+hashWords(hs))
 	nk := fmt.Sprintf("new%d", r.Intn(100000))
 	ns := shard{key: nk, kh: hashServer(nk), w: uint32(r.PickInt(1, 1, int(g)+1, 7))}
 	pos := r.Intn(n + 1)
@@ -1872,7 +1933,7 @@ func shrinkTokens(script []string, fails func([]string) bool) []string {
 		w := strings.Fields(cur[i])
 		keep := 0
 		switch {
-		case len(w) > 0 && (w[0] == "fm" || w[0] == "sel" || w[0] == "#perm" || w[0] == "#remove"):
+		case len(w) > 0 && (w[0] == "fm" || w[0] == "sel" || w[0] == "#perm" || w[0] == "#remove" || w[0] == "#alias"):
 			keep = 1
 		case len(w) > 0 && (w[0] == "fmans" || w[0] == "#add"):
 			keep = 3
@@ -1906,7 +1967,7 @@ func TestC12(t *testing.T) {
 	run.SetRule("shard maps of 1..5 shards (weights 1, 2, 2^32-1, random), object hashes aimed at the boundaries of the fixed point score " +
 		"(by inverting splitmix64), exact score ties, maps whose weights are all equal but one or share a common factor (with near-tie hashes), every permutation / removal / one addition per map; composites over recording " +
 		"backends with scripted FindMissing/Get/Put/GetFromComposite faults, sibling digests sharing their leading 8 hash bytes and cousin digests sharing only 1..7; " +
-		"fresh composites per rotation with boundary-prefix digests first; stacks built from configuration messages over error backends; " +
+		"selectors re-queried after the slice they were built from was reused by the caller; fresh composites per rotation with boundary-prefix digests first; stacks built from configuration messages over error backends; " +
 		"a case is non-trivial when it exercises permutation/removal/addition on >= 2 shards or an operation of the composite; distinct by script hash")
 	permN := run.Scale(4, 5)
 	permLimit := 120
